@@ -20,6 +20,12 @@ Tie:   (a) direct drive: real Channel objects registered in a real (not started)
            packet sizes against `run_sendall_win` (payloads, unsent rest, final window; oracle: window debit ==
            bytes put on the wire); two quick-tier loopback transfers with ONE sendall far larger than the window
            (64 KiB window / >= 300 KiB, default 2 MiB window / >= 512 KiB) under a progress watchdog;
+       (f) sender/receiver pair: a real sending Channel's send / send_stderr / sendall / sendall_stderr /
+           send_exit_status (statuses over the whole uint32 range incl. >= 0xff000000) / shutdown_write, with small
+           maximum packet sizes; the bytes it put on the wire go unchanged through the receiving transport's dispatch;
+           receiver streams / status compared with what the sender was given and with `run_case` on the intended
+           messages; loopback server writers are phased around the re-key (first half, re-key, second half + exit
+           status + EOF) with zlib@openssh.com on, and a dying transport is reported as a concrete failing case;
        (e) exit status at statement granularity: AST check that _handle_request stores exit_status before it sets
            status_event, and two deterministic two-thread schedules (a recv_exit_status() reader released right after
            status_event.set(), and one released while the handler is still reading the status from the message)
@@ -241,7 +247,16 @@ def impl_run(dispatch, reg, dead, ids, ops):
     try:
         for o in ops:
             k = o[0]
-            if k == "Msg":
+            if k == "Wire":
+                # a message exactly as a real sending Channel put it on the wire: type byte + body
+                if not rig.alive:
+                    continue
+                from paramiko.message import Message
+                pt = o[1]
+                if pt in rig.t._handler_table or pt not in rig.t._channel_handler_table:
+                    raise RuntimeError("message type %d is not dispatched by the channel branch" % pt)
+                rig.alive = dispatch(rig.t, pt, Message(o[2]))
+            elif k == "Msg":
                 if not rig.alive:
                     continue        # the loop has ended: nothing is read from the wire any more
                 pt, msg = build_message(o[1], o[2])
@@ -455,13 +470,105 @@ def direct_drive(ctx, dispatch, n):
         cases.append((case, canon))
         if i < 2:
             ctx.sample({"direct-drive": {"registered": reg, "dead": dead, "ops": ops[:12], "impl": canon[:60]}})
-    bad = model_mm(ctx, "run_case", "(list Z * list Z * list Z * list op)",
-                               [(coq_case(c), canon) for c, canon in cases], shard=100)
-    for i in bad[:3]:
+    def bad_case(i):
         c = cases[i][0]
         ctx.disagree("real Transport dispatch + Channel handlers differ from the model on a history",
                      case={"reg": c[0], "dead": c[1], "ids": c[2], "ops": c[3]}, impl=cases[i][1])
+
+    model_later(ctx, "ACase", [(coq_case(c), canon) for c, canon in cases], bad_case)
     return cases
+
+
+def pair_plan(rng):
+    pkt = 64 + rng.choice([1, 3, 8, 20, 2 ** 15 - 64])
+    ops = []
+    budget = 400
+    for j in range(rng.randrange(1, 10)):
+        if rng.random() < 0.75 and budget > 0:
+            ln = min(budget, rng.choice([0, 1, 2, 5, 9, 30, 70]))
+            budget -= ln
+            err = rng.random() < 0.45
+            x = bytes(rng.randrange(128, 256) if err else rng.randrange(0, 128) for _ in range(ln))
+            ops.append((("sendall" if rng.random() < 0.5 else "send") + ("_stderr" if err else ""), x))
+        else:
+            ops.append(("send_exit_status", rng.choice(STATUSES) if rng.random() < 0.7 else rng.randrange(0, 2 ** 32)))
+    if rng.random() < 0.4:
+        ops.append(("shutdown_write",))
+    return pkt, ops
+
+
+def pair_drive(ctx, dispatch, n, fixed=None):
+    """Sender side of the property: a real sending Channel (send / send_stderr / sendall / sendall_stderr /
+    send_exit_status / shutdown_write, small maximum packet sizes so that writes are chunked) puts its messages on a
+    recording transport; the bytes it produced are fed, unchanged, through the receiving transport's dispatch.
+    Oracle: the receiver's streams / exit status are what the sender was given.  Model: the same history with the
+    INTENDED messages (Data chunk, ExtData 1 chunk, ExitStatus v, Eof) evaluated by run_case."""
+    rng = ctx.rng
+    cases = []
+    plans = fixed if fixed is not None else [pair_plan(rng) for _ in range(n)]
+    for i, (pkt, sender_ops) in enumerate(plans):
+        snd = _fresh_channel()                 # chanid 3, remote_chanid 7
+        rid = snd.remote_chanid
+        snd.out_max_packet_size = pkt
+        snd.out_window_size = BIG
+        wire = []
+        snd.transport._send_user_message = lambda m, wire=wire: wire.append(m.asbytes())
+        impl_ops, model_ops = [], []
+
+        def flush():
+            for raw in wire:
+                impl_ops.append(("Wire", raw[0], raw[1:]))
+            del wire[:]
+
+        def reads():
+            for _ in range(rng.randrange(0, 3)):
+                q = rng.random()
+                o = ("Recv", rid, rng.choice(READS)) if q < 0.5 else \
+                    ("RecvErr", rid, rng.choice(READS)) if q < 0.8 else ("PollExit", rid)
+                impl_ops.append(o)
+                model_ops.append(o)
+
+        for sop in sender_ops:
+            name = sop[0]
+            if name == "send_exit_status":
+                snd.send_exit_status(sop[1])
+                model_ops.append(("Msg", rid, ("ExitStatus", sop[1])))
+            elif name == "shutdown_write":
+                snd.shutdown_write()
+                model_ops.append(("Msg", rid, ("Eof",)))
+            else:
+                x = sop[1]
+                err = name.endswith("_stderr")
+                r = getattr(snd, name)(x)
+                written = x if name.startswith("sendall") else x[:r]
+                cap = pkt - 64
+                for a in range(0, len(written), cap):
+                    chunk = list(written[a:a + cap])
+                    model_ops.append(("Msg", rid, ("ExtData", 1, chunk) if err else ("Data", chunk)))
+            flush()
+            reads()
+        snd.closed = True
+        canon, obs = impl_run(dispatch, [rid], [], [rid], impl_ops)
+        mcase = ([rid], [], [rid], model_ops)
+        exp = expected_streams(*mcase)[rid]
+        o = obs[rid]
+        case = {"pair": True, "max_packet": pkt, "sender_ops": sender_ops}
+        if o["out"] != exp["data"] or o["err"] != exp["ext"]:
+            ctx.fail("pair-stream", "bytes written with send/sendall(/_stderr) on one Channel are not the bytes read "
+                     "from the peer Channel's stdout/stderr", case=case,
+                     expected={"stdout": exp["data"], "stderr": exp["ext"]},
+                     observed={"stdout": o["out"], "stderr": o["err"]})
+        if exp["status"] and o["exit"] != exp["status"][-1]:
+            ctx.fail("exit-status-sender", "the status given to send_exit_status is not the one recv_exit_status "
+                     "reports on the peer Channel", case=case, expected=exp["status"][-1], observed=o["exit"])
+        ctx.count(("pair", repr(sender_ops), pkt), nontrivial=len(sender_ops) > 0, kind="pair-drive")
+        cases.append((mcase, canon, case))
+        if i == 0:
+            ctx.sample({"pair-drive": {"sender_ops": sender_ops[:6], "max_packet": pkt, "impl": canon[:40]}})
+    model_later(ctx, "ACase", [(coq_case(c), canon) for c, canon, _ in cases],
+                lambda i: ctx.disagree("messages emitted by a real sending Channel, dispatched to the receiving "
+                                       "Channel, differ from the model's Data/ExtData/ExitStatus/Eof messages",
+                                       case=cases[i][2], impl=cases[i][1]))
 
 
 # ----------------------------------------------------------------------------------------------
@@ -940,13 +1047,16 @@ def big_plan(rng, window, n_out, n_err):
         "stdout": bytes(b & 0x7F for b in rng.randbytes(n_out)),
         "stderr": bytes(b | 0x80 for b in rng.randbytes(n_err)),
         "stdin": bytes(rng.randbytes(rng.choice([0, 5000]))),
-        "status": rng.choice([0, 7, 255, 4242]),
+        "status": rng.choice(STATUSES),
         "combine": "never",
         "wsizes": [10 ** 9], "force_sendall": True, "stdout_first": True,
         "rsizes": rng.choice([[4096], [65536], [1000, 100000]]),
         "wseed": rng.getrandbits(32), "rseed": rng.getrandbits(32),
     }]
 
+
+# exit statuses over the whole uint32 range, incl. >= 0xff000000 (the uint32 image of small negative exit codes)
+STATUSES = [0, 1, 3, 127, 255, 256, 4242, 2 ** 31 + 5, 0xFEFFFFFF, 0xFF000000, 0xFF000001, 0xFFFFFF9C, 2 ** 32 - 1]
 
 STALL = 12.0     # seconds without a single byte arriving anywhere before a transfer counts as stalled
 
@@ -967,7 +1077,7 @@ def loopback(ctx, nchan, total, label, plan=None, window=None):
             "stdout": bytes(rng.randrange(0, 128) for _ in range(n_out)),
             "stderr": bytes(rng.randrange(128, 256) for _ in range(n_err)),
             "stdin": bytes(rng.randrange(256) for _ in range(n_in)),
-            "status": rng.choice([0, 1, 3, 127, 255, 4242, 2 ** 31 + 5]),
+            "status": rng.choice(STATUSES),
             "combine": rng.choice(["never", "never", "before", "during"]),
             "wsizes": rng.choice([[1, 7, 100], [1000, 4096, 30000], [1, 50000], [32768, 65536, 200000]]),
             "rsizes": rng.choice([[1, 5, 64], [1024, 4096], [3, 100000], [65536]]),
@@ -1021,6 +1131,10 @@ def loopback(ctx, nchan, total, label, plan=None, window=None):
             cch.append(c)
             sch.append(s)
 
+        phased = not any(p.get("force_sendall") for p in plan)
+        half_done = [threading.Event() for _ in plan]
+        go2 = threading.Event()
+
         def guard(fn):
             def run():
                 try:
@@ -1041,7 +1155,11 @@ def loopback(ctx, nchan, total, label, plan=None, window=None):
                     seq.append(items.pop(0))
                 else:
                     seq.append(errs.pop(0))
-            for k, x in seq:
+            for j, (k, x) in enumerate(seq):
+                if phased and j == (len(seq) + 1) // 2:
+                    # first half written: wait until the main thread has re-keyed, then write the rest
+                    half_done[i].set()
+                    go2.wait(120)
                 if not p.get("force_sendall") and r.random() < 0.3:
                     # plain send(): partial writes handled by the caller
                     while x:
@@ -1053,6 +1171,8 @@ def loopback(ctx, nchan, total, label, plan=None, window=None):
                     s.sendall(x)
                 else:
                     s.sendall_stderr(x)
+            half_done[i].set()
+            go2.wait(120)
             s.send_exit_status(p["status"])
             s.shutdown_write()
 
@@ -1107,9 +1227,22 @@ def loopback(ctx, nchan, total, label, plan=None, window=None):
                 threads.append(t)
         for t in threads:
             t.start()
+        # re-key in mid-transfer: the server writers have written their first half (client writers and all
+        # readers keep running), the rest of the data, the exit status and EOF follow the re-key
+        if phased:
+            t_half = time.time() + 120
+            for ev in half_done:
+                ev.wait(max(0.1, t_half - time.time()))
+        rekey_error = None
         for k in range(rekeys):
-            time.sleep(0.05)
-            (tc if k % 2 == 0 else ts).renegotiate_keys()
+            if not phased:
+                time.sleep(0.05)
+            try:
+                (tc if k % 2 == 0 else ts).renegotiate_keys()
+            except Exception as e:  # noqa
+                rekey_error = "re-key %d (%s side): %r" % (k + 1, "client" if k % 2 == 0 else "server", e)
+                break
+        go2.set()
         deadline = time.time() + (600 if ctx.thorough else 240)
         # progress watchdog: a transfer is stalled when no byte arrives anywhere for STALL seconds
         seen_bytes, last = -1, time.time()
@@ -1138,10 +1271,27 @@ def loopback(ctx, nchan, total, label, plan=None, window=None):
             for i, c in enumerate(cch):
                 kind, v = with_watchdog(c.recv_exit_status, 30.0)
                 res[i]["status"] = v if kind == "ok" else kind
+        if rekey_error or not tc.is_active() or not ts.is_active():
+            got = [{"stdout+stderr": len(r_["out"]) + len(r_["err"]), "stdin": len(r_["sin"])} for r_ in res]
+            problems[:] = [{"key": "loopback-transport-died", "chan": -1,
+                            "what": "end-to-end: a transport died during a transfer with compression and a re-key "
+                                    "(channel streams cut short)",
+                            "expected": "both transports alive, all streams complete",
+                            "observed": {"rekey": rekey_error, "client_alive": tc.is_active(),
+                                         "server_alive": ts.is_active(), "received": got,
+                                         "client_exc": repr(tc.get_exception()), "server_exc": repr(ts.saved_exception),
+                                         "errors": errors[:3]}}]
         if errors and not problems:
             problems.append({"key": "loopback-error", "what": "a loopback worker raised", "chan": -1,
                              "expected": "no exception", "observed": errors[:3]})
         comp = (tc.local_compression, tc.remote_compression, ts.local_compression, ts.remote_compression)
+    except Exception as e:  # noqa  (set-up, open_session, exec_command ... failing is an end-to-end failure too)
+        import traceback
+        comp = None
+        problems[:] = [{"key": "loopback-transport-died", "chan": -1,
+                        "what": "end-to-end: the loopback session failed (transport died / request refused)",
+                        "expected": "session established and all streams complete",
+                        "observed": {"exception": repr(e), "trace": traceback.format_exc()[-800:]}}]
     finally:
         for t_ in (tc, ts):
             try:
@@ -1189,7 +1339,7 @@ def run_loopback(ctx, nchan, total, label, big=None):
                                             window=window)
         else:
             problems, plan, comp = loopback(ctx, nchan, total, label)
-        timing = [p for p in problems if p["key"] in ("loopback-stalled", "loopback-error")]
+        timing = [p for p in problems if p["key"] in ("loopback-stalled", "loopback-error", "loopback-transport-died")]
         if timing and attempt == 0:
             ctx.notes.append("loopback %s: %s on the first attempt; retried once" % (label, timing[0]["key"]))
             continue
@@ -1282,8 +1432,13 @@ def run(ctx):
         direct_drive(ctx, dispatch, 240 * scale)
         ctx.log("direct drive done (%.1fs)" % (time.time() - t0))
 
+    def pair():
+        dispatch, _ = build_dispatch()
+        pair_drive(ctx, dispatch, 60 * scale)
+
     section("constants", lambda: constants_check(ctx))
     section("direct drive", direct)
+    section("sender/receiver pair", pair)
     section("combine schedules", lambda: scheduled_runs(ctx, 6 * scale))
     section("sendall", lambda: sendall_cases(ctx, 40 * scale))
     section("sendall window", lambda: sendall_window_cases(ctx, 60 * scale))
@@ -1332,6 +1487,14 @@ def replay(ctx, rep):
         bad = model_mm(ctx, "run_case", "(list Z * list Z * list Z * list op)", [(coq_case(c), canon)])
         if bad:
             ctx.disagree("replayed history differs from the model", case=case, impl=canon)
+    elif case.get("pair"):
+        dispatch, _ = build_dispatch()
+        ops = []
+        for o in case["sender_ops"]:
+            ops.append((o[0], bytes.fromhex(o[1]["hex"])) if len(o) > 1 and isinstance(o[1], dict) else tuple(o))
+        pair_drive(ctx, dispatch, 1, fixed=[(case["max_packet"], ops)])
+    elif "loopback" in case and not str(case.get("loopback", "")).startswith("bigsend"):
+        loopbacks(ctx)
     elif "exit_schedule" in case:
         ctx.count(("replay-exit", case["status_sent"]))
         got, _ = schedule_exit(case["status_sent"], case["exit_schedule"])
